@@ -84,6 +84,11 @@ func (e *Engine) verifyFunction(c *Contract, init *State) (res *FuncResult) {
 	e.usedModels = map[string]bool{}
 	e.bitDefs = nil
 	e.pureSeen = map[int]bool{}
+	e.byteRefs = map[int]bool{}
+	e.lists = map[int][]*Term{}
+	e.pairs = map[int][2]*Term{}
+	e.replacers = map[int][]*Term{}
+	e.tmplFuncs = map[int]*Term{}
 	e.allocParent = map[int]*Term{}
 	e.topFn = fn
 	e.topContract = c
